@@ -25,12 +25,12 @@ theorem endpoint_stable {d0 : Design} (hyp : Hyp d0) {q : Nat} (hq : q < d0.ndef
     subst this
     rw [hl] at hjl; cases hjl
 
-theorem FInvB.step {d0 : Design} (hyp : Hyp d0) {d : Design} {q iid : Nat} {pn : String}
+theorem FInvB.step {d0 : Design} (hyp : Hyp d0) (hnamed : Named d0) {d : Design} {q iid : Nat} {pn : String}
     {rest : List (Nat × Nat × String)} {tr : List Nat} {moved : List Inst}
     (invA : FInvA d0 ⟨d, (q, iid, pn) :: rest, tr⟩ moved) (invB : FInvB d0 ⟨d, (q, iid, pn) :: rest, tr⟩ moved) :
     ∃ moved', FInvA d0 ⟨(fStep d q iid pn).1, rest ++ (fStep d q iid pn).2.1, tr ++ (fStep d q iid pn).2.2⟩ moved' ∧
       FInvB d0 ⟨(fStep d q iid pn).1, rest ++ (fStep d q iid pn).2.1, tr ++ (fStep d q iid pn).2.2⟩ moved' := by
-  obtain ⟨c0, hc0, hid, hfind, hfs, invA'⟩ := invA.step' hyp
+  obtain ⟨c0, hc0, hid, hfind, hfs, invA'⟩ := invA.step' hyp hnamed
   obtain ⟨hqR, hqlt, hqd, hnm, hxlt, hxtop, hxq, hxnd⟩ := invA.head_facts hyp hc0 hid
   have hli := liftInst_fields pn d.ctr c0
   generalize liftInst pn d.ctr c0 = li at hli hfs invA'
